@@ -47,6 +47,11 @@ def check(tier, seed):
         pair = [r for r in reqs if r.label in ('UbxCfgPrtPoll', 'AppCfgPrtUsbPoll')]
         for _ in range(12 if tier == 'quick' else 300):
             scs.append(S.scenario(rng, pair, kt, n_req=rng.choice([2, 3]), force='good'))
+        # ... in the orders A B A, B A B, A B B A, A A B A: the class registered for a class/id is the one of the LAST poll
+        if len(pair) == 2:
+            a_, b_ = pair
+            for order in ([a_, b_, a_], [b_, a_, b_], [a_, b_, b_, a_], [a_, a_, b_, a_]) * (1 if tier == 'quick' else 20):
+                scs.append(S.scenario(rng, pair, kt, force='good', rqs=list(order)))
         # long noisy histories: 8..14 requests, a checksum-failed frame or two in front of what the receiver sends in every attempt
         from .. import ubxgen as G
         for _ in range(10 if tier == 'quick' else 250):
